@@ -40,7 +40,7 @@ TEXT = {
     "C20": {
         "technique": "Verus: every panic!/unwrap/expect/integer operation in the extracted bodies is an obligation (R8: panic! -> requires false)",
         "level_text": "Proof (partial scope): the date arithmetic (add_days, add_bus_days, lag, roll, add_months, get_roll, get_roll_by_day, get_eom, bus_date_range, cal_date_range) has no reachable panic, failed unwrap or integer overflow for any i8 day count, any month offset whose target year is representable, roll days 1-31, any modifier and flag, any calendar.",
-        "level_note": "Partial: JSON text, Ccy/NamedCal string handling are not covered (listed as uncovered). Assumes the chrono shim; preconditions are exactly: results stay in chrono's range and an eligible day exists in the search direction.",
+        "level_note": "Partial: JSON loading is not under contract (serde expansions); the three genuine defects found there and in the spline solve were repaired in /repo (fix: 9783ec0, 7e92a66, 234b13e) and their inputs are replayed on the real code on every check (bounded, single inputs). Assumes the chrono shim; preconditions are exactly: results stay in chrono's range and an eligible day exists in the search direction.",
         "design_ref": "DESIGN.md §7 C20",
     },
     "C17": {
